@@ -114,6 +114,7 @@ def summarize_t1(stats):
 
 # ----------------------------------------------------------------------------- C11 specifics
 TOL_VALUE = 1e-12      # matrix of the value, relative to max(1, |entries|)
+TOL_VALUE_GS = 1e-11   # control-point variant: differences reach pi - 1.1e-3, log amplifies rounding by <= ~1e3
 TOL_DERIV = 1e-9       # velocity, acceleration, jerk and all Jacobians
 SWITCH_LO, SWITCH_HI = 0.5e-4, 1.0e-2   # rotation increments |B_j w_j| in the strata "switch" and "above_switch" (sqrt(eps2) = 1e-4)
 
@@ -180,7 +181,7 @@ class C11:
     def budget(self, ctx):
         # (n per (K,G,basis), audit cost budget)
         if ctx['tier'] == 'quick':
-            return 12, 60000 * ctx.get('budget', 1)
+            return 12, 150000 * ctx.get('budget', 1)
         return 60, 2000000 * ctx.get('budget', 1)
 
     def check_lines(self, ctx, lines, audit_budget):
@@ -204,7 +205,7 @@ class C11:
                'strata_hits': strata, 'per_op_K': perK, 't1_stats': summarize_t1(res_t1['stats']),
                't1_worst_ulp': max([v['worst_ulp'] for v in res_t1['stats'].values()] or [0.0]),
                't1_breaks': len(res_t1['breaks']), 'audit_samples': n_aud, 'audit_worst': astats,
-               'tolerances': {'value': TOL_VALUE, 'derivatives_and_jacobians': TOL_DERIV},
+               'tolerances': {'value': TOL_VALUE, 'value_gs': TOL_VALUE_GS, 'derivatives_and_jacobians': TOL_DERIV},
                'traces_validated_against_impl': len(lines)}
         return {'coverage': cov, 'findings': findings, 'broken': broken}
 
@@ -240,7 +241,7 @@ class C11:
             names = AUDIT_OF[l.op][1]
             reg = None
             for i, nm in enumerate(names):
-                tol = TOL_VALUE if nm == 'value' else TOL_DERIV
+                tol = (TOL_VALUE_GS if l.op == 'cs_eval_gs' else TOL_VALUE) if nm == 'value' else TOL_DERIV
                 k = f'{l.op}|{l.grp}|{nm}'
                 worst[k] = max(worst.get(k, 0.0), errs[i])
                 if not (errs[i] <= tol):
